@@ -24,8 +24,12 @@ THEOREM_NAMES = ['run_fuel_mono', 'run_fuel_mono_false', 'word_munch', 'expandTa
                  # blanks / tabs at EVERY token boundary: one summary theorem per statement kind
                  'dl_layout', 'sl_layout', 'strand_layout', 'state_layout', 'kernel_layout', 'complex_layout', 'struct_layout',
                  'rx_plain_layout', 'rx_info_layout', 'strand_blanks', 'state_blanks', 'kernel_blanks', 'complex_blanks', 'struct_blanks',
-                 'rx_plain_blanks', 'rx_info_blanks']
-THEOREMS = ['Dsd.C13.' + t for t in THEOREM_NAMES] + ['Dsd.PP.Tabs.expandTabs_tok', 'Dsd.PP.Tabs.expandTabs_sep', 'Dsd.PP.Tabs.expand_template', 'Dsd.PP.run_yield', 'Dsd.PP.parseDoc_yield']
+                 'rx_plain_blanks', 'rx_info_blanks',
+                 # rejections at document level
+                 'bad_pil_statement_rejected', 'unbalanced_kernel_close_rejected', 'unbalanced_kernel_open_rejected',
+                 'unbalanced_kernel_rejected_doc', 'kernel_brackets_balanced_sig']
+THEOREM_NAMES_EXTRA = ['Dsd.Pil.pil_document_rejected']
+THEOREMS = ['Dsd.C13.' + t for t in THEOREM_NAMES] + THEOREM_NAMES_EXTRA + ['Dsd.PP.Tabs.expandTabs_tok', 'Dsd.PP.Tabs.expandTabs_sep', 'Dsd.PP.Tabs.expand_template', 'Dsd.PP.run_yield', 'Dsd.PP.parseDoc_yield']
 ASSUMPTIONS = [
     'pyparsing 3.3.2 is modelled by a hand-written interpreter (Model/Pyparsing.lean: whitespace/comment skipping, Word maximal munch, '
     'Literal prefix match, Keyword = prefix match not followed by an identifier character, ordered choice, greedy repetition, Combine adjacency, LineEnd at end of input); its agreement with the real '
@@ -69,7 +73,12 @@ MANIFEST = {
             'parser model accepts, the consumed input is ignorable text and matched terminals in grammar order): '
             'kernel_brackets_balanced (in any accepted comment-free document the text of every kernel statement has balanced '
             'parentheses), unbalanced_kernel_rejected (name = pattern with unbalanced parentheses, any pattern text over the pattern '
-            'alphabet: parse error), missing_assign_rejected (a text without "=", ":" and ">" is never accepted), dl_value_wellformed; decimal / scientific numbers in reactions, error terms, indented '
+            'alphabet: parse error), missing_assign_rejected (a text without "=", ":" and ">" is never accepted), dl_value_wellformed; at '
+            'DOCUMENT level pil_document_rejected / bad_pil_statement_rejected: a malformed statement (BadPilStmt: missing name, missing '
+            'assignment sign in every statement kind, malformed length / sequence-length numbers, rates like ".5", "1.", "1e", "1e+", '
+            'units without a time unit - with arbitrary blanks and any rest of the line) after any well-formed statements in any '
+            'line layout makes the whole document a parse error; unbalanced_kernel_close_rejected / _open_rejected likewise; '
+            'kernel_brackets_balanced_sig without the comment-freeness hypothesis (balance of the significant characters); decimal / scientific numbers in reactions, error terms, indented '
             'statements, file = string and history independence are NOT theorems: they are decided on the real parser by a '
             'reference renderer over grammar-generated token trees in random layouts, and the model is compared with pyparsing on the '
             'same texts, four negative families and random mutations.',
